@@ -317,3 +317,91 @@ def h_repair_entry(nv: int, s0: int, r0: int, k0: int, c0: int, d0: int, s1: int
         if not isinstance(crr.post_repair_results, CheckResults):
             return "no post-repair check results"
     return True
+
+
+# ---- verify=True: shares the verifier finds bad must count against the file ------------------------------------------
+
+hlib.encoded(ck_mod.MutableChecker._verify_all_shares, ck_mod.MutableChecker._process_bad_shares)
+NOTES.append("verify_marks: allmydata.mutable.checker.Retrieve replaced by a stand-in verifier that marks a symbolic subset of the best "
+             "version's shares bad ON THE MAP OBJECT IT WAS GIVEN (as Retrieve(verify=True) does) and returns the bad-share list")
+
+
+class _FakeVerifier(object):
+    made = []
+    to_mark = []
+
+    def __init__(self, node, storage_broker, servermap, verinfo, fetch_privkey=False, verify=False):
+        self.servermap, self.verinfo, self.verify = servermap, verinfo, verify
+        _FakeVerifier.made.append(self)
+
+    def download(self, consumer=None, offset=0, size=None):
+        bad = []
+        for (srv, sh) in _FakeVerifier.to_mark:
+            self.servermap.mark_bad_share(srv, sh, self.verinfo[-2])
+            bad.append((srv, sh, failure.Failure(ValueError("block hash mismatch"))))
+        return defer.succeed(bad)
+
+
+ck_mod.Retrieve = _FakeVerifier
+
+
+def h_verify_marks(nv: int, s0: int, r0: int, k0: int, c0: int, d0: int, s1: int, r1: int, k1: int, c1: int, d1: int,
+                   s2: int, r2: int, k2: int, c2: int, d2: int, m0: bool, m1: bool, m2: bool) -> bool:
+    """
+    pre: mm.descriptors_ok(nv, _descs([s0, r0, k0, c0, d0, s1, r1, k1, c1, d1, s2, r2, k2, c2, d2]), B)
+    pre: B.get("s0") is None or nv == 0 or s0 == B["s0"]
+    post: _ == True
+    """
+    nv, sm, model = _setup(nv, [s0, r0, k0, c0, d0, s1, r1, k1, c1, d1, s2, r2, k2, c2, d2])
+    N = B["N"]
+    best = _best(model)
+    marks = [mm.pinb(m) for m in (m0, m1, m2)]
+    places = list(model[best][2]) if best is not None else []
+    _FakeVerifier.made = []
+    # candidates: share 0 on the version's own server, share 1, and the LAST placement (a further copy of share 0 if there is one)
+    cand = []
+    for idx in (0, 1, len(places) - 1):
+        if 0 <= idx < len(places) and places[idx] not in cand:
+            cand.append(places[idx])
+    _FakeVerifier.to_mark = [cand[i] for i in range(len(cand)) if marks[i]]
+    node = NS(get_storage_index=lambda: SI, get_uri=lambda: _CAPSTR)
+    chk = ck_mod.MutableChecker(node, "storage-broker", None, NS(raise_if_cancelled=lambda: None))
+    chk._got_mapupdate_results(sm)
+    d = chk._verify_all_shares(sm)
+    if d is not None:
+        out = []
+        d.addBoth(out.append)
+        if len(out) != 1 or isinstance(out[0], failure.Failure):
+            return "verification did not complete"
+    cr = chk._make_checker_results(sm)          # check(): d.addCallback(lambda res: servermap); d.addCallback(self._make_checker_results)
+    if best is None:
+        if _FakeVerifier.made:
+            return "verifier started although nothing is recoverable"
+        return True
+    if len(_FakeVerifier.made) != 1 or _FakeVerifier.made[0].verinfo != best or _FakeVerifier.made[0].verify is not True:
+        return "verify did not read the best version in verify mode"
+    # independent model: a share found bad does not count; everything else is as the map update saw it
+    bad = set(_FakeVerifier.to_mark)
+    after = {}
+    for v in model:
+        keep = [(srv, sh) for (srv, sh) in model[v][2] if not (v == best and (srv, sh) in bad)]
+        if keep:
+            after[v] = (model[v][0], set(sh for (srv, sh) in keep), keep)
+    rec_after = mm.recoverable(after)
+    if cr.is_recoverable() != bool(rec_after):
+        return "recoverable flag ignores shares the verifier found bad"
+    want_healthy = False
+    if len(after) == 1:
+        (v, (k, shnums, keep)) = list(after.items())[0]
+        want_healthy = len(shnums) >= k and len(shnums) >= N
+    if cr.is_healthy() != want_healthy:
+        return "health verdict ignores shares the verifier found bad"
+    if bad and not chk.need_repair:
+        return "corrupt shares found but no repair requested"
+    new_best = _best(after)
+    if new_best is not None:
+        if cr.get_share_counter_good() != len(after[new_best][1]):
+            return "good-share count still includes shares the verifier found bad"
+    if set((srv, sh) for (srv, si, sh) in cr.get_corrupt_shares()) != bad or len(cr.get_corrupt_shares()) != len(bad):
+        return "list of corrupt shares is not what the verifier reported"
+    return True
